@@ -76,3 +76,44 @@ Theorem C09_real_decoder_inverts_the_semantic_encoding :
   from_bits rt w = Ok (Some l) /\ lenN w = size rt.
 Proof. exact lit_enc_decode. Qed.
 Print Assumptions C09_real_decoder_inverts_the_semantic_encoding.
+
+(* ------------------------------------------------------------------ the TEXT path of the API
+   (Check/LitParse.v: a model of lib.rs parse_arg / literal.rs Literal::parse =
+   scan -> parse_literal (literal mode of the parser model) -> type_check (the checker model) ->
+   check_type -> into_literal, followed by parse_arg's is_of_type re-test). *)
+From GV Require Import Front.Scan Front.ParseExpr Check.UAst Check.Infer Check.LitParse Check.LitParseProofs.
+
+(* a parsed argument is of the parameter's type *)
+Theorem C09_parsed_argument_is_of_the_parameter_type : forall intern fuel T i text l,
+  parse_arg intern fuel T i text = COk l ->
+  exists main mu name ty r,
+    assocL (tp_main T) (tp_fns T) = Some main /\ nthN (tf_params main) i = Some (mu, name, ty) /\
+    literal_parse intern (defs_of_tprogram T) ty text = COk l /\
+    rty_of_cty intern (defs_of_tprogram T) fuel ty = Some r /\ Literal.is_of_type l r = true.
+Proof. exact parse_arg_of_type. Qed.
+Print Assumptions C09_parsed_argument_is_of_the_parameter_type.
+
+(* Literal::parse alone (without parse_arg's re-test) is of the type for scalar types, any tokens *)
+Theorem C09_literal_parse_scalar_is_of_type : forall intern D ty ts l r,
+  scalar_rty ty = Some r -> ty <> CUnsigned UnspecifiedU -> ty <> CSigned UnspecifiedS ->
+  literal_parse_tokens intern D ty ts = COk l -> Literal.is_of_type l r = true.
+Proof. exact parse_scalar_of_type. Qed.
+Print Assumptions C09_literal_parse_scalar_is_of_type.
+
+(* ... but NOT for ranges: `2..5` at [u8; 3] is returned as a range of Unspecified numbers, and
+   `0u8..257` at [u8; 257] as a range beyond u8; parse_arg's re-test rejects both (the real code too:
+   C09's number / range scenarios) *)
+Theorem C09_literal_parse_unsuffixed_range_refuted :
+  exists intern D ty text l r,
+    literal_parse intern D ty text = COk l /\ rty_of_cty intern D 5 ty = Some r /\ Literal.is_of_type l r = false.
+Proof. exact parse_unsuffixed_range_refuted. Qed.
+Print Assumptions C09_literal_parse_unsuffixed_range_refuted.
+
+(* numbers: an unsigned token without suffix or with the suffix of the expected type is accepted
+   iff it is in the range of the type, and denotes that number *)
+Theorem C09_number_tokens_exact : forall intern D n sfx u m,
+  u <> UnspecifiedU -> sfx = UnspecifiedU \/ sfx = u ->
+  literal_parse_tokens intern D (CUnsigned u) (one_tok (TUnsignedNum n sfx) m) =
+  if Literal.u_in_range n (uty_of u) then COk (Literal.LUnsigned n (uty_of u)) else CErr E_UnexpectedType.
+Proof. exact P2_unsigned. Qed.
+Print Assumptions C09_number_tokens_exact.
